@@ -37,8 +37,10 @@ def writer_case(rnd, i, wd, tier):
     small = rnd.random() < 0.6
     cls = rnd.choice(["empty", "one", "rep", "rand", "text", "mixed", "split", "text", "rand"])
     n = rnd.choice([2, 10, 300, 5000]) if small else rnd.choice([40000, 131072, 200001, 600000 if tier == "thorough" else 300000])
-    D = writegen.content(rnd, cls, n)
     cfg = writegen.config(rnd, small)
+    if cfg.get("max", 1 << 30) < 100 and n > 20000:
+        n = 20000          # hundreds of thousands of one-byte chunks terminate, but not within a watchdog's patience under ASan
+    D = writegen.content(rnd, cls, n)
     if cfg.get("uncomp") and cfg["chunk"] in (0, 3):
         cfg["chunk"] = 1
     style = rnd.choice(["whole", "prime", "blk", "mix"] + (["one"] if len(D) <= 3000 else []))
